@@ -700,7 +700,30 @@ impl Condvar {
                 (obj, t)
             };
             drop(guard); // real unlock + model unlock (scheduling point)
+            let mut first = true;
             s.op(me, |st| {
+                // Spurious wake-ups are legal for a condition variable: the
+                // fault plan's "k-th blocking wait of thread t returns
+                // without a wake-up" covers `park` and `Condvar::wait` alike.
+                if first {
+                    first = false;
+                    st.threads[me].park_calls += 1;
+                    let k = st.threads[me].park_calls - 1;
+                    let pending = {
+                        let Obj::Cond { notified, .. } = &st.objects[obj as usize] else { unreachable!() };
+                        notified.contains(&ticket)
+                    };
+                    if !pending {
+                        if let Some(pos) = st.faults.spurious_parks.iter().position(|&(t, i)| t == me && i == k) {
+                            st.faults.spurious_parks.remove(pos);
+                            st.fire("spurious_condvar_wake");
+                            let Obj::Cond { waiting, .. } = &mut st.objects[obj as usize] else { unreachable!() };
+                            waiting.retain(|&t| t != ticket);
+                            st.threads[me].yielded = true;
+                            return Step::Done(());
+                        }
+                    }
+                }
                 let Obj::Cond { notified, vc, .. } = &mut st.objects[obj as usize] else {
                     unreachable!()
                 };
